@@ -477,6 +477,21 @@ def gen_macros(path):
     lines.append('  ' + ',\n  '.join(caps))
     lines.append(']')
     lines.append('')
+    # (c') the lambda each clause macro builds around the user's expression: capture list, parameter, and what stands between
+    #      the parameter list and the body (`mutable`, a trailing return type)
+    lines.append('/-- (macro, capture list, parameter, specifiers between the parameter list and the body). -/')
+    lines.append('def clauseLambdas : List (String × String × String × String) := [')
+    lams = []
+    for mac in CLAUSE_MACROS:
+        cand = [b for (params, b) in bodies[mac] if 'auto' in b and 'mkarg' in b]
+        m = re.search(r'\[\s*([^\]]*?)\s*\]\s*\(\s*([^)]*?)\s*\)\s*([^{]*?)\s*\{', cand[0])
+        if not m:
+            raise TranslateError('%s: cannot find the lambda' % mac)
+        lams.append('(%s, %s, %s, %s)' % (lean_string(mac), lean_string(re.sub(r'\s+', ' ', m.group(1))),
+                                          lean_string(re.sub(r'\s+', ' ', m.group(2))), lean_string(re.sub(r'\s+', ' ', m.group(3)))))
+    lines.append('  ' + ',\n  '.join(lams))
+    lines.append(']')
+    lines.append('')
     # (d) PARAM_LIST_n / PARAMS_n : indices used, in order
     lines.append('/-- (n, the indices i of `param_list_t<…, i>` in TROMPELOEIL_PARAM_LISTn, the k of the `pk` names). -/')
     lines.append('def paramLists : List (Nat × List Nat × List Nat) := [')
